@@ -102,6 +102,10 @@ DOMNodeImpl::DOMNodeImpl(DOMNode* containingNode, const DOMNodeImpl &other)
     // Need to break the association w/ original parent
     this->fOwnerNode = other.getOwnerDocument();
     this->isOwned(false);
+    // the copy is not in anybody's child list (a stale first-child flag
+    // would make getPreviousSibling() return null once it is inserted
+    // behind another node)
+    this->isFirstChild(false);
 }
 
 
@@ -943,7 +947,8 @@ void DOMNodeImpl::setTextContent(const XMLCh* textContent) {
                     thisNode->removeChild(current);
                     current = thisNode->getFirstChild();
                 }
-                if (textContent != NULL)
+                // "if the new string is not empty or null" (DOM Level 3)
+                if (textContent != NULL && *textContent != 0)
                 {
                     // Add textnode containing data
                     current = ((DOMDocumentImpl*)thisNode->getOwnerDocument())->createTextNode(textContent);
